@@ -122,6 +122,31 @@ CLAIMED = {
             "real to_sax and real runs on parsed trees are validated by TLC.",
             "Foreign-attribute table, prefix-mapping order and qname conventions follow the code (ASSUMED). Failures on parsed trees arise "
             "only from the two walker deviations listed as findings.", "5/C19"),
+    "C15": ("model_checking",
+            "TLA+ specs InjectMeta (pre_head/in_head/post_head machine with pending queue vs a whole-stream statement of the "
+            "transformation) and EncodeRefs (per-chunk encoding with character references composed with the reader); TLC theorems; "
+            "replay into the real filter; real serializer->bytes->real parser round trips for every encodable webencodings label "
+            "judged by TLC (Trace_InjectMeta, Trace_EncodeRefs)",
+            "TLC shows the filter machine refines the stream-level transformation and yields exactly one declaration of the requested "
+            "encoding inside head with everything else unchanged, and proves round-trip / expressibility / raw-text / single-BOM "
+            "theorems for the encode layer; every exported behaviour is replayed into the real filter and thousands of generated, "
+            "padded (declaration beyond 1024 and 10240 bytes) and repository documents go through the real serializer (fresh and "
+            "reused objects) and the real parser for every label, with chunks, raises, reported encoding and tree judged by TLC.",
+            "Codec facts are computed from the codecs themselves. Prescan/late-meta are observed end to end here (modelled in C06). The "
+            "property is judged on parser-shaped streams (one head, lower-case meta attribute names); UTF-16LE/BE without BOM and "
+            "characters beyond the reach of references are ASSUMED out of domain.", "5/C15"),
+    "C08": ("model_checking",
+            "TLA+ spec Serializer (serialize() token by token: in_cdata, quoting, escaping, minimisation, solidus, doctype/comment, "
+            "errors, strict cut) + an in-place re-tokenizing judge built on Tokenizer.tla (LexContext driver); TLC theorem 'error "
+            "reported or Retok(output) = stream' on the intended design; replay with exact comparison; real parser->walker->serializer "
+            "runs judged on the ACTUAL output (Trace_Serializer)",
+            "TLC proves the lexical-faithfulness theorem on the intended machine over 21 lexical contexts x danger-alphabet text, 12 "
+            "attribute subjects x values x option vectors, doctypes, comments and 20 streams x all 576 option vectors; every state of "
+            "the code-faithful configuration is replayed into the real serializer (output, .errors, strict cut) and real pipelines on "
+            "arbitrary malformed input are re-derived and judged by TLC.",
+            "Bounded: text <=2, identifiers <=3, streams <=7 tokens; encoding excluded (C15). ASSUMED conventions: scripting-off reader, "
+            "escape_rcdata reader, boolean attributes by presence, None = '' in doctypes, lower-cased names. Eleven listed deviations "
+            "are carried as named branches, each reproduced on the real code.", "5/C08"),
 }
 
 NOT_YET = "check not built yet in this round (planned, see DESIGN.md section 5)"
